@@ -28,6 +28,8 @@ func runC12(r *engine.Run) {
 	r.Rule("ORDER-hashfresh", "see C10: in the Serialize methods of the hashed node kinds every read of a cached hash (the receiver's hash field, a child's Hash()) is reached only on paths where the receiver's dirty flag tested false or CalcHash() was called on the receiver: proofs and exported paths (which serialise nodes directly, possibly after an update and before the next Root()/Commit) never carry a stale hash")
 	r.Rule("DOM-marked", "in markToCollect every success return of the branch arm and of the shared-prefix arm is dominated by toCollect = true on that node: a node on the path of a requested key is exported in full also when the key is absent below it (a later insert of that key rewrites exactly this node)")
 	r.Rule("DOM-nodb", "resolve reaches the storage lookup only where t.db != nil tested (or resolveHashNode has a nil-error return under db == nil): a storage-less partial trie keeps an unresolved reference in the branch reduction of delete instead of failing where the full trie succeeds")
+	r.Rule("DOM-childhash", "in deserializeTrie the subtree returned by each recursive call is stored into its parent, and only where bytes.Equal(parent's placeholder hash, child hash) tested true; Deserialize marks the decoded root dirty, recomputes its hash and returns success only where the transmitted root hash equals the recomputed one")
+	r.Rule("AGREE-persist", "see C10: serialised fields = deserialised fields")
 	r.NotDec = append(r.NotDec, "root/weight equality after mirrored updates (value-level)", "the import-side hash checks (not necessary for honest exports)")
 	agreeBranches(r)
 	agreeEmbed(r)
@@ -38,6 +40,8 @@ func runC12(r *engine.Run) {
 	orderHashFresh(r, "ORDER-hashfresh")
 	domMarked(r, "DOM-marked")
 	domNoDB(r, "DOM-nodb")
+	domChildHash(r, "DOM-childhash")
+	agreePersist(r, "AGREE-persist")
 }
 
 func exhWSubset(r *engine.Run, rule string, name string) {
